@@ -152,6 +152,7 @@ type Ctx struct {
 	curResults     []types.Object
 	resTypes       []types.Type
 	panicOK        string
+	ifaceNil       bool
 	nilPanics      bool
 	assumeAsserts  bool
 	mergeA, mergeB *State
@@ -934,8 +935,23 @@ func (c *Ctx) globalVar(st *State, gv *types.Var) Val {
 		return v
 	}
 	v := c.symbolic(st, "G_"+gv.Name(), gv.Type())
+	if p, ok := v.(PtrV); ok && c.prog != nil && c.prog.contracts.NonNilGlobals[gv.Pkg().Path()+"."+gv.Name()] {
+		c.assume("(> " + p.Ref + " 0)")
+	}
 	c.specEnv[key] = v
 	return v
+}
+
+// concatStr: a + b on strings (content facts only for units that state something about contents)
+func (c *Ctx) concatStr(st *State, a, b SliceV) Val {
+	is := c.idx()
+	ln := c.def("catlen", is, c.addIdx(a.Len, b.Len))
+	arr := c.freshRaw("cat", c.byteArrSort())
+	aa, ba := c.sliceArr(st, a), c.sliceArr(st, b)
+	k := "k"
+	c.contentFact(fmt.Sprintf("(forall ((k %s)) (! (=> %s (= (select %s k) (select %s %s))) :pattern ((select %s k))))", is.smt(), and(c.leIdx(c.ilit(0), k), c.ltIdx(k, a.Len)), arr, aa, c.addIdx(a.Off, k), arr))
+	c.contentFact(fmt.Sprintf("(forall ((k %s)) (! (=> %s (= (select %s k) (select %s %s))) :pattern ((select %s k))))", is.smt(), and(c.leIdx(a.Len, k), c.ltIdx(k, ln)), arr, ba, c.addIdx(b.Off, c.subIdx(k, a.Len)), arr))
+	return SliceV{Arr: arr, Off: c.ilit(0), Len: ln, Cap: ln, Nil: "false", Prov: "fresh", IsStr: true}
 }
 
 func (c *Ctx) nilCheck(st *State, p PtrV, pos token.Pos) {
@@ -1285,6 +1301,9 @@ func (c *Ctx) binary(x *ast.BinaryExpr, st *State) Val {
 		}
 	case SliceV:
 		if b, ok := bvv.(SliceV); ok {
+			if x.Op == token.ADD && (a.IsStr || b.IsStr) {
+				return c.concatStr(st, a, b)
+			}
 			if a.IsStr || b.IsStr {
 				return c.strCompare(x.Op, a, b, st)
 			}
